@@ -78,6 +78,13 @@ fn model_xml(namespace: &str, name: &str, version: &str, broken: bool) -> String
     <informationRequirement id="_ir_scale_sc_{v}"><requiredInput href="#_in_sc_{v}"/></informationRequirement>
     <literalExpression><text>decimal(n, sc)</text></literalExpression>
   </decision>
+  <decision name="odd_keys" id="_odd_keys_{v}">
+    <variable typeRef="Any" name="odd_keys"/>
+    <informationRequirement id="_ir_ok_s_{v}"><requiredInput href="#_in_s_{v}"/></informationRequirement>
+    <informationRequirement id="_ir_ok_n_{v}"><requiredInput href="#_in_n_{v}"/></informationRequirement>
+    <informationRequirement id="_ir_ok_b_{v}"><requiredInput href="#_in_b_{v}"/></informationRequirement>
+    <literalExpression><text>{{"": s, "a\"b": s, "1": [[s], [], [[n, [b]]]], "x&#9;y": {{"": []}}, "\\": null, "é中": b, "k\u0001": n, "e": {{}}, "le": [{{}}, [], {{"": {{}}}}]}}</text></literalExpression>
+  </decision>
   <decision name="echo_mix" id="_echo_mix_{v}">
     <variable typeRef="Any" name="echo_mix"/>
     <informationRequirement id="_ir_mix_s_{v}"><requiredInput href="#_in_s_{v}"/></informationRequirement>
